@@ -61,8 +61,14 @@ class RTTransport(asyncio.DatagramTransport):
         self.world.sent(self, bytes(data), addr)
 
     def close(self):
+        if self.closed:
+            return
         self.world.mark('transport-closed')
         self.closed = True
+        try:
+            self.loop.call_soon(self.proto.connection_lost, None)      # as asyncio's datagram transports do
+        except RuntimeError:
+            pass
 
     def is_closing(self):
         return self.closed
